@@ -16,6 +16,7 @@ HNext == \/ (Checkpoint /\ Rec("checkpoint")) \/ (Ok /\ Rec("ok")) \/ (RestoreCp
          \/ (PushU(Len(ops) + 1) /\ Rec("push")) \/ (DropU /\ Rec("drop")) \/ (ClearU /\ Rec("clear"))
          \/ (PushR(Len(ops) + 1) /\ Rec("rpush")) \/ (PopR /\ Rec("rpop"))
          \/ (AInc /\ Rec("ainc")) \/ (AZero /\ Rec("azero"))
+         \/ (AEnter /\ Rec("aenter")) \/ (AExit /\ Rec("aexit"))
 HSpec == HInit /\ [][HNext]_hvars
 Emit == Len(ops) = N => PrintT(ToJson([ops |-> ops, exp |-> exps]))
 =============================================================================
